@@ -30,6 +30,7 @@ const (
 	gEobj, gEscope, gEres, gHeld  = "L$eobj", "L$escope", "L$eres", "L$held"
 	gLocked                       = "L$locked"
 	gXexit, gXexitVal             = "L$xexit", "L$xexitval"
+	gNunlock                      = "L$nunlock"
 )
 
 type AtEval struct {
@@ -56,7 +57,7 @@ func (e *Exec) ghostInit() map[string]*Term {
 		gN: IntLit(0), gLast: IntLit(-1), gExit: False, gExitVal: {"nil-obj", SObj},
 		gEk: e.fresh(ai, "ek"), gEarr: e.fresh(ai, "earr"), gEslot: e.fresh(ai, "eslot"), gEidx: e.fresh(ai, "eidx"),
 		gEobj: e.fresh(ao, "eobj"), gEscope: e.fresh(ai, "escope"), gEres: e.fresh(ao, "eres"),
-		gHeld: IntLit(0), gXexit: False, gXexitVal: {"nil-obj", SObj},
+		gHeld: IntLit(0), gNunlock: IntLit(0), gXexit: False, gXexitVal: {"nil-obj", SObj},
 	}
 }
 
@@ -233,6 +234,7 @@ func (h *TraceHook) lockCall(e *Exec, fr *Frame, st *State, c *ssa.CallCommon, i
 		return true, nil
 	case "Unlock", "RUnlock":
 		st.heap[gHeld] = e.def(SInt, Sub(st.heap[gHeld], IntLit(1)))
+		st.heap[gNunlock] = e.def(SInt, Add(st.heap[gNunlock], IntLit(1)))
 		return true, nil
 	case "TryLock":
 		ok := e.fresh(SBool, "trylock")
